@@ -421,6 +421,8 @@ pub fn opcodes_weight(opcodes: &[OpCode]) -> u128 {
 
 /// Compute the weight of the first bit of opcodes, returning a weight and what remains.
 fn opcodes_car_weight(opcodes: &[OpCode]) -> (u128, &[OpCode]) {
+    #[cfg(melstf_verif)]
+    verif::bump();
     if opcodes.is_empty() {
         return (0, opcodes);
     }
@@ -495,6 +497,27 @@ fn opcodes_car_weight(opcodes: &[OpCode]) -> (u128, &[OpCode]) {
         OpCode::PushIC(_) => (1, rest),
 
         OpCode::Dup => (4, rest),
+    }
+}
+
+/// Verification hook (only with `--cfg melstf_verif`): counts how many times the weight
+/// calculation visits an opcode, per thread, so a monitor can relate weighing work to program size.
+#[cfg(melstf_verif)]
+pub mod verif {
+    use std::cell::Cell;
+    thread_local! {
+        static WORK: Cell<u64> = Cell::new(0);
+    }
+    pub(crate) fn bump() {
+        WORK.with(|w| w.set(w.get().wrapping_add(1)));
+    }
+    /// Resets this thread's weigh-work counter.
+    pub fn weight_work_reset() {
+        WORK.with(|w| w.set(0));
+    }
+    /// Reads this thread's weigh-work counter.
+    pub fn weight_work_get() -> u64 {
+        WORK.with(|w| w.get())
     }
 }
 
